@@ -318,6 +318,8 @@ UNITS = [
     # ---- added after a coverage audit of the rule classes' match()/tostr() (tools/covaudit.py) and the
     # round-3 seeded changes; flag x = extended (quick tier: fewer rotations, no depth-2 nesting)
     ("block_data_anon", "block data\n{SPEC}\nend block data", "fix x"),
+    ("sub_then_anon", "subroutine {n7}\nend subroutine {n7}\n{SPEC}\n{EXEC}\nend", "fix x"),
+    ("anon_then_sub", "{SPEC}\n{EXEC}\nend\nsubroutine {n7}\nend subroutine {n7}", "fix x"),
     ("function_prefix", "pure elemental real function {n8}({n7})\n{SPEC}\n{EXEC}\n{n8} = 1\nend function {n8}", "x"),
     ("function_result_bind", "function {n8}() result({n6}) bind(c)\n{SPEC}\n{EXEC}\nend function {n8}", "x"),
     ("subroutine_prefix", "recursive subroutine {n8}({n7}, *)\n{SPEC}\n{EXEC}\nend subroutine {n8}", "fix x"),
